@@ -24,7 +24,10 @@ from verif.gen.tokens import Tokens
 
 SEP = {"sp": " ", "sp2": "  ", "amp": "&", "lt": "<", "gt": ">", "quot": '"', "apos": "'", "ent": "&amp;",
        "lbr": "{", "rbr": "}", "bsl": "\\", "euro": "€", "nonbmp": "\U0001F600", "rtl": "שלום"}
-VALUE_FEATURES = list(SEP)
+# terminal characters: a value ending in a capital letter, a digit, a dot (clean-up code that strips date suffixes such as the
+# "Z" of a timestamp must not touch textual properties)
+ENDS = {"endZ": "Z", "endT": "T", "end0": "0", "enddot": "."}
+VALUE_FEATURES = list(SEP) + list(ENDS)
 META_KEYS = ("title", "author", "subject", "keywords", "description")
 UNI_TEXT = " \U0001F600 שלום &<>\"' é "
 UNI_TEXT_CP1252 = " &<>\"' é "
@@ -33,7 +36,11 @@ UNI_TEXT_CP1252 = " &<>\"' é "
 def meta_value(feats, tk: Tokens) -> str:
     v = tk.new("Z")
     for f in feats:
-        v += SEP[f] + tk.new("Z")
+        if f in SEP:
+            v += SEP[f] + tk.new("Z")
+    for f in feats:
+        if f in ENDS:
+            v += ENDS[f]
     return v
 
 
